@@ -4,10 +4,12 @@
 (apply, check, revert) and store it under /verif/seeded/<ID>-<n>/."""
 import json, os, subprocess, sys, shutil, re
 pid, n = sys.argv[1], sys.argv[2]
-props = sys.argv[3:] or [pid[:3]]
+props = sys.argv[3:]
 src = f"/tmp/seeded_out/{pid}/change{n}"
 wt = f"/tmp/wt_{pid}"
 meta = json.load(open(f"{src}/meta.json"))
+if not props:
+    props = [meta["property"][:3]] if pid[0] == "A" else [pid[:3]]
 demo_cmd = meta["demo_cmd"]
 def sh(cmd, cwd=None, timeout=1800):
     p = subprocess.run(cmd, shell=True, cwd=cwd, stdout=subprocess.PIPE, stderr=subprocess.STDOUT, text=True, timeout=timeout)
@@ -47,7 +49,7 @@ shutil.copy(f"{src}/patch.diff", dst)
 for f in os.listdir(src):
     if f.startswith("demo") or f.endswith(".rs"):
         shutil.copy(f"{src}/{f}", dst)
-meta_out = {"property": pid[:3], "breaks": meta.get("summary"), "needs": meta.get("needs"), "demo_cmd": demo_cmd,
+meta_out = {"property": (meta["property"][:3] if pid[0] == "A" else pid[:3]), "breaks": meta.get("summary"), "needs": meta.get("needs"), "demo_cmd": demo_cmd,
             "origin": "written by an independent sub-agent given only the property text and a scratch worktree",
             "confirmed_by_us": {"ok": confirmed, "ran": ran},
             "checks_run_against_it": results,
